@@ -14,6 +14,10 @@
 //          variants joined by `~` (each query is evaluated several times; distinct results in order of first appearance)
 //          variant = E:<class> | steps joined by `|` ; step = `-` | elements joined by `;` (sorted) ; element = <labels>=<16 hex value bits | H<hash>>
 //          labels = `l:v,l:v` sorted by name (empty for a scalar)
+//
+// Generator: gen.go (data + random type-correct queries) and params.go (per-step VARYING aggregation parameters:
+// the parameter metrics kk/kr/kq, directed queries aligned with the parameter's changes, and one case per run that
+// enumerates every short history of parameter values).
 package main
 
 import (
@@ -738,6 +742,13 @@ func main() {
 			e.runCase(c, cs[1:])
 		}
 		return
+	}
+	if c.N > 0 {
+		// every short history of parameter values (params.go); heavier alphabet in the thorough tier
+		c.Case("enum-param-histories")
+		ops := genEnumCase(c.Tier)
+		c.NonTrivial(strings.Join(ops, ";"))
+		e.runCase(c, ops)
 	}
 	for i := 0; i < c.N; i++ {
 		c.Case(fmt.Sprintf("r%d", i))
